@@ -79,6 +79,12 @@ func MarkCheckpointComplete(checkpointPath string) {
 	os.Remove(checkpointIncompleteMarker(checkpointPath))
 }
 
+// IsCheckpointComplete tells whether the checkpoint directory exists and is not marked as being written.
+func IsCheckpointComplete(checkpointPath string) bool {
+	fi, err := os.Stat(checkpointPath)
+	return err == nil && fi.IsDir() && !isCheckpointIncomplete(checkpointPath)
+}
+
 var errBackupIncomplete = errors.New("the backup is incomplete")
 
 func isCheckpointIncomplete(checkpointPath string) bool {
